@@ -21,15 +21,11 @@ import (
 // scan and nothing young is lost.  The damaged message itself is don't-care.
 func runFault(c *fw.Ctx, idx int, r *fw.Rand) {
 	spec := genPop(r, 3, 14, 8, false)
-	conf := sut.DefaultConf()
-	conf.Storage.Type = "file"
-	dir := c.TempDir("c12fault")
-	conf.Storage.Params = map[string]string{"path": dir}
-	env, err := sut.NewEnv(conf, "file")
+	sc := pickConf(c, "fault", idx, "file")
+	st, _, mailDir, err := newStoreAt(c, "file", sc)
 	if err != nil {
 		panic(err)
 	}
-	st := env.Store
 	now := time.Now()
 	model, err := instantiate(st, &spec, now)
 	if err != nil {
@@ -56,7 +52,7 @@ func runFault(c *fw.Ctx, idx int, r *fw.Rand) {
 	damaged := map[*pmsg]bool{}
 	for _, v := range victims {
 		h := stringutil.HashMailboxName(v.Mailbox)
-		raw := filepath.Join(dir, "mail", h[0:3], h[0:6], h, v.ID+".raw")
+		raw := filepath.Join(mailDir, h[0:3], h[0:6], h, v.ID+".raw")
 		if err := os.Remove(raw); err != nil {
 			c.Inconclusive("cannot damage the store as planned: " + err.Error())
 			return
@@ -64,7 +60,7 @@ func runFault(c *fw.Ctx, idx int, r *fw.Rand) {
 		damaged[v] = true
 	}
 	old, _ := spec.counts()
-	detail := map[string]any{"period": spec.Period.String(), "population": spec, "content_files_removed": len(victims)}
+	detail := map[string]any{"store_conf": sc, "period": spec.Period.String(), "population": spec, "content_files_removed": len(victims)}
 	rs := storage.NewRetentionScanner(config.Storage{RetentionPeriod: spec.Period, RetentionSleep: 0}, st)
 	if _, ok := scanOnce(c, rs, context.Background(), "fault"); !ok {
 		return
